@@ -107,6 +107,8 @@ class LogView:
         self.dropped_at = None
         self.unlocked_at = None
         self.refused_cbs = set()
+        self.end_at_call = 0
+        self.snap_lock = {}               # event index of a snapshot -> content of the LOCK file then
         self.inflight = 0
         self.purges = []                  # accepted purges: (upto log id, journal offset just behind the purge record)
         self.closing_last = {}            # chunk id -> last log id recorded when it was closed (from stat results)
@@ -154,6 +156,7 @@ class LogView:
                         self.live[2] = True
                 elif k == "call":
                     self.last_call = t[2:]
+                    self.end_at_call = self.end
                     # records the call in progress may already have journalled when a snapshot
                     # is taken inside it
                     self.inflight = ((len(t) - 3) // 3 if t[2] == "A" else 1) if t[2] in ("V", "A", "T", "P", "C", "U") else 0
@@ -176,7 +179,7 @@ class LogView:
                         self.purges.append((up, int(t[3]) + int(t[4])))
                         # a purge at or below the current purge point writes no record and
                         # requests nothing (its result is the previous record's segment)
-                        if int(t[3]) + int(t[4]) > self.end:
+                        if int(t[3]) + int(t[4]) > self.end_at_call:
                             self.live = [up, False, False]
                     if self.last_call and self.last_call[0] in "VATPCU" and t[2] == "ok":
                         off, ln = int(t[3]), int(t[4])
@@ -194,6 +197,9 @@ class LogView:
                 elif k == "snap":
                     files = dict(p_recover.parse_disk("disk " + e.split("snap disk", 1)[1]))
                     self.snaps.append((i, files, dict(self.synced), self.acked_writes, self.nwrites + self.inflight))
+                elif k == "lockfile":
+                    if self.snaps:
+                        self.snap_lock[self.snaps[-1][0]] = t[2] if len(t) > 2 else "x"
                 elif k == "flock" and t[2] == "unlock":
                     self.unlocked_at = i
                 elif k == "dropped":
@@ -251,6 +257,12 @@ class LogView:
             chunks.append((int(cm.group(1)), last))
             self.closing_last[int(cm.group(1))] = last
         if self.live and self.live[2] and self.fault_free:
+            # every file still on disk is one the store still tracks
+            mo = re.search(r"\] open=(\d+),", e)
+            tracked_ids = set(c for c, _ in chunks) | ({int(mo.group(1))} if mo else set())
+            left = [f for f in self.present if f not in tracked_ids]
+            if left and mo:
+                self.problems.append(("C08", "the purge up to %s was flushed and the worker is idle, but the obsolete chunk file(s) %s are still on disk" % (self.live[0], left), i))
             up = self.live[0]
             # judged on the oldest closed chunk only: files go oldest-first, so a younger chunk
             # behind one that must stay is rightly kept
@@ -296,7 +308,7 @@ def gen_schedule(rnd, nops, cfg, faults=0, snaps=False, small_cache=False, reads
         r = rnd.random()
         if o.startswith("P") and faults == 0 and rnd.random() < 0.65:
             # purge, flush, worker idle, look: the liveness clause of C08 is judged here
-            items += ["F 1", "wi", "G"]
+            items += [rnd.choice(["F 1", "F 0"]), "wi", "G"]
         elif o.startswith("F"):
             if hold and rnd.random() < 0.6:
                 pass                    # keep the worker where it is: more requests for the next batch
@@ -317,6 +329,10 @@ def gen_schedule(rnd, nops, cfg, faults=0, snaps=False, small_cache=False, reads
     items += ["F 1", "wi"]
     if snaps:
         items.append("snap")
+    if snaps and faults == 0:
+        # the directory (lock file included) copied and opened while its owner is still alive
+        for _ in range(rnd.randint(0, 2)):
+            items.insert(rnd.randrange(1, len(items) + 1), "copyopen")
     if autosnap:
         # a snapshot after every create / write of the caller thread: crash points inside calls
         items.insert(0, "autosnap")
@@ -351,6 +367,23 @@ def run_C04(ctx):
     ff = [("fault " not in c) for c in cases]
     logs, rep = trace_check(ctx, "c04", cases)
     views, bad = analyse(ctx, "C04", cases, logs, ff)
+    # a chunk rotation that fails on the caller thread (the creation of the next chunk file
+    # fails: disk full) while journalled bytes are still pending. The model has no caller-side
+    # I/O failure, so these traces are judged by the trace predicates alone: a later
+    # callback may report success only if everything accepted before its flush is durable.
+    ccases = []
+    for j in range(ctx.scale(12, 80)):
+        recs = rnd.choice([4, 5, 6])              # the head snapshot counts: recs - 1 entries fill a chunk
+        items = ["A 1 0 x00", "F 1", "wi"]
+        for i in range(1, recs - 2):
+            items.append("A 1 %d x%02x" % (i, i))
+        items += ["cfault create 1", "A 1 %d x77" % (recs - 2)]          # fills the chunk: the rotation fails
+        items += [rnd.choice(["F 1 ; wi", "F 1 ; w 1 ; wi", "F 0 ; wi ; F 1 ; wi"]), "A 1 %d x78" % (recs - 1), "F 1", "wi", "G"]
+        ccases.append("TRACE 100000 1073741824 %d 1073741824 1 64 | %s" % (recs, " ; ".join(items)))
+    clogs = run_traces(ccases, ctx.wd, "c04c")
+    cviews, cbad = analyse(ctx, "C04", ccases, clogs, [True] * len(ccases))
+    bad += cbad
+    ctx.count("failed_rotation_traces", len(ccases))
     # exactly once without failures
     for c, v, f in zip(cases, views, ff):
         if v is None or not f:
@@ -464,7 +497,12 @@ def crash_cases(ctx, cases, views, cfgs):
         for (ei, files, synced, acked, issued) in v.snaps:
             for kind, im in crash_images(rnd, files, synced, ctx.thorough()):
                 cfg = cfgs[ci]
-                out.append(p_recover.img_case(cfg, im, IMG_AFTER))
+                case = p_recover.img_case(cfg, im, IMG_AFTER)
+                if kind == "process-crash" and ei in v.snap_lock:
+                    # the process died: the lock file is there as its owner left it
+                    h_, f_, a_ = case.split("|", 2)
+                    case = "%s|%s LOCK:%s |%s" % (h_, f_.rstrip(), v.snap_lock[ei], a_)
+                out.append(case)
                 meta.append(dict(trace=ci, at_event=ei, kind=kind, acked=acked, issued=issued,
                                  # an older file whose image is not its complete content: cut, or zero-filled
                                  gap=any(im[j][0] + len(im[j][1]) != im[j + 1][0] or im[j][1] != files[im[j][0]][: len(im[j][1])]
@@ -495,6 +533,18 @@ def run_crash(ctx, prop):
     cfgs = [c.split("|")[0].replace("TRACE", "").strip() for c in cases]
     logs, rep = trace_check(ctx, prop.lower(), cases)
     views, _ = analyse(ctx, prop, cases, logs, [True] * len(cases))
+    if prop == "C05":
+        nco = 0
+        for c, l in zip(cases, logs):
+            for e in l.split(" ; "):
+                e = e.strip()
+                if e.startswith("c copyopen"):
+                    nco += 1
+                    # a gap (InvalidData) is finding F3; anything else must open
+                    if e not in ("c copyopen ok", "c copyopen err InvalidData"):
+                        ctx.fail("oracle", "C05 oracle: the directory of a store that is killed (copied as it is, lock file included, and opened while the pid of the old owner is in use) does not open: " + e,
+                                 dict(kind="trace", case=c[:4000], trace=l[:3000]))
+        ctx.count("copyopen", nco)
     # process-crash snapshots must equal the model's directory (checked by the replay: `c snap`)
     imgs, meta = crash_cases(ctx, cases, views, cfgs)
     impl = C.run_impl(imgs, ctx.wd, "crashimg")
@@ -600,6 +650,19 @@ def run_C08(ctx):
         items += [rnd.choice(["w 1", "w 2", "w 3"]), "snap"] * rnd.randint(1, 5) + ["wi", "snap", "G"]
         cases.append("TRACE %s | %s" % (cfg, " ; ".join(items)))
         ctx.count("postponed_removal_schedules")
+    # the purge record itself fills the open chunk (the rotation hands the bytes to the worker, a
+    # following flush has nothing pending), flushed with and without a callback
+    for j in range(ctx.scale(12, 80)):
+        R = rnd.choice([3, 4, 5])
+        cfg = "100000 1073741824 %d 1073741824 1 64" % R
+        k = rnd.choice([1, 2, 3])
+        n1 = k * (R - 1)
+        items = ["A 1 %d x%02x" % (i, i) for i in range(n1)] + ["F 1", "wi"]
+        items += ["V %d 1" % (2 + i) for i in range(R - 2)]          # the open chunk: head + R-2 votes
+        items += ["P 1 %d" % rnd.randint(max(0, n1 - R), n1 - 1), rnd.choice(["F 0", "F 0", "F 1"]), "wi", "G", "snap"]
+        items += ["A 1 %d x55" % n1, "F 1", "wi", "G"]
+        cases.append("TRACE %s | %s" % (cfg, " ; ".join(items)))
+        ctx.count("purge_fills_chunk_schedules")
     cases = p_seq.corpus("C08") + cases
     cfgs = [c.split("|")[0].replace("TRACE", "").strip() for c in cases]
     logs, rep = trace_check(ctx, "c08", cases)
